@@ -42,6 +42,17 @@ Definition make_handshake_material (local_public remote_public : Z) : list Z :=
 Definition session_key (priv my_public remote_public : Z) : list Z :=
   hmac (derive_shared_secret priv remote_public) (make_handshake_material my_public remote_public).
 
+(* KeyManager::register_session_with_material: contexts_[peer] = context -- the newest registration replaces the old one *)
+Definition keymap : Type := list (Z * list Z).
+Definition km_register (m : keymap) (peer : Z) (key : list Z) : keymap :=
+  (peer, key) :: filter (fun e => negb (fst e =? peer)) m.
+Fixpoint km_current (m : keymap) (peer : Z) : option (list Z) :=
+  match m with [] => None | (p, k) :: r => if p =? peer then Some k else km_current r peer end.
+
+(* a node with scalar priv accepts a sequence of handshakes (peer, offered public) *)
+Definition accept_all (priv : Z) (hs : list (Z * Z)) : keymap :=
+  fold_left (fun m h => km_register m (fst h) (session_key priv (compute_public priv) (snd h))) hs [].
+
 (* ---- wire ---- *)
 Definition run (input : list Z) : list Z :=
   let '(mode, l) := w_next input in
@@ -62,4 +73,10 @@ Definition run (input : list Z) : list Z :=
   else if mode =? 5 then
     let '(a, l) := w_next l in let '(rp, l) := w_next l in let '(mp, _) := w_next l in
     derive_shared_secret a rp ++ make_handshake_material mp rp
+  else if mode =? 6 then
+    (* node A (scalar a) accepts peer 1 with scalar b, then -- after the cool-down -- the same peer id with scalar b2 *)
+    let '(a, l) := w_next l in let '(b, l) := w_next l in let '(b2, _) := w_next l in
+    let pa := compute_public a in
+    let m := accept_all a [(1, compute_public b); (1, compute_public b2)] in
+    [a; b; b2] ++ (match km_current m 1 with Some k => k | None => [-7] end) ++ session_key b2 (compute_public b2) pa
   else [-1].
